@@ -203,11 +203,17 @@ CLAIMS = [
     },
     {
         "property_id": "C08",
-        "technique": "Lean 4 theorems on the lifetime skeleton of the model (one live position per key, husks never live, old array released with the last stripe) + object-registry / allocator-balance monitoring of the real table (K5)",
+        "technique": "Lean 4 theorems on the object-lifetime discipline of the model (constructions on empty cells, destructions of occupied cells, arrays dropped only when they hold husks, ledger objCount = pairs + husks) + object-registry / allocator-balance monitoring of the real table (K5)",
         "text": "Props/C08.lean: every key is held at exactly one live position after any operation sequence; cells left behind in the old array by a migration "
                 "are never part of the live view; the superseded bucket array is released exactly when its last stripe migrates (and by lock_table, "
-                "clear, batch migration). PARTIAL: object construction/destruction counts and the allocator balance are properties of the C++ object "
-                "model, which the functional model does not have; they are monitored on the implementation: instrumented key/value types record every "
+                "clear, batch migration). Props/C08Life.lean (object-lifetime discipline on the model; an object = an occupied cell of the current or of the "
+                "superseded array): every construction hits an EMPTY cell (insert_constructs_on_empty, moveBucket/rehashLock/eager_double/rebuild_constructs_on_empty: "
+                "the migration functions are exactly folds of write traces whose targets are empty, pairwise different and copies of each source once), every "
+                "destruction hits an OCCUPIED cell (erase_destroys_occupied, hop_moves_one_object: one construction + one destruction of the source), an array is "
+                "dropped only when all its objects are moved-from husks (old_release_kills_only_husks, rebuild_drops_only_husks, eager_double_drops_only_moved) or by "
+                "clear (clear_destroys_everything), and the ledger objCount = number of pairs + husks at every reachable state (objCount_eq, every_object_is_a_pair_or_a_husk, "
+                "counters_count_live_objects). PARTIAL: the allocator's byte balance and the C++ constructor/destructor calls themselves are not in the functional "
+                "model; they are monitored on the implementation: instrumented key/value types record every "
                 "construction, move and destruction in a registry that is compared with the occupied slots after every request (no destroyed or "
                 "moved-from object in a live slot, no double destroy, nothing left after table destruction), together with a byte-balanced allocator and ASan.",
         "design_ref": "DESIGN.md 6/C08, 9, 12",
